@@ -246,6 +246,24 @@ func checkC17(c *core.Ctx, l *core.Ledger) {
 						visit(cal, depth+1)
 					}
 				}
+				// function values handed on (method values, named functions used as callbacks)
+				if depth < 3 {
+					for _, op := range in.Operands(nil) {
+						if op == nil || *op == nil {
+							continue
+						}
+						switch x := (*op).(type) {
+						case *ssa.Function:
+							if x.Pkg == f.Pkg || (x.Pkg == nil && x.Synthetic != "") {
+								visit(x, depth+1)
+							}
+						case *ssa.MakeClosure:
+							if fn, ok := x.Fn.(*ssa.Function); ok {
+								visit(fn, depth+1)
+							}
+						}
+					}
+				}
 			})
 			if has && g != f {
 				checkGuardedInsertMulti(c, l, g)
